@@ -10,12 +10,21 @@ Statements are about `TF.Engine.interpret` (`Model/Interp.lean`, the list-level 
 `get_max_fold_count_limit` / `get_min_fold_count_limit` and `collect_fold_elements` stops early),
 `useLimits := false` is the reference semantics (every fold fully materialised, then filtered).
 
-  Full statement (FALSE of the code today, findings F-23 and F-29, witnesses below):
+  Full statement — FALSE of the code today (findings F-23 and F-29; `limits_invisible_false`,
+  witnesses `limits_visible_witness`, `limits_visible_witness_nested`):
 
     theorem limits_invisible (env : Env) (ir : IRQuery) :
         interpret { env with useLimits := false } ir = interpret env ir
+
+Proved instead: (a) `max_limit_sound`, (b) `min_limit_sound` — the two limit computations anticipate
+the post-filters exactly, for every sign / magnitude / representation of the arguments; the
+single-fold theorem `foldFinish_limits_equiv`; and the global theorem `limits_invisible_partial`
+under the decidable guard `CountUnobserved ir` (no filter anywhere in the parent component and no
+import of a sibling fold uses the count tag of a fold that is eligible for the min shortcut — F-23;
+such a fold contains no fold with outputs — F-29; fold Eids distinct), for runs of the reference
+semantics that succeed, with typed count-filter arguments and folds of fewer than 2^64 elements.
 -/
-import TrustfallModel.Proofs.FoldLimits
+import TrustfallModel.Proofs.FoldLimitsEval
 
 namespace TF.C22
 open TF TF.Engine Filter
@@ -75,8 +84,134 @@ theorem min_limit_sound_all (env : Env) (parent : Component) (fold : Fold) (k : 
   have : decide (t ≤ min n k) = decide (t ≤ n) := decide_eq_decide.mpr (by omega)
   rw [this]
 
+/-! ### the single-fold theorem -/
+
+/-- **One context through one fold.**  In a component satisfying the guard, for a context `c` whose
+active vertex is the fold's source and elements `computed` (fewer than 2^64): if the reference
+semantics (`(none, none)`: no limits) makes `r` of it, the engine with the limits `lim` it computes
+for this fold makes `r'` of it, where `r` and `r'` are both absent or both present and equal up to
+the fold-count slots of the truncated folds (`Ctx.norm (truncEids parent)`, which nothing but those
+folds' own post-filters reads): the same verdict of the post-filters, the same outputs. -/
+theorem foldFinish_limits_equiv (env : Env) (hu : env.useLimits = true) (parent : Component)
+    (g : Fold) (hguard : compGuard parent = true) (hg : g ∈ parent.folds)
+    (lim : Option Nat × Option Nat) (hlim : foldLimits env parent g = .ok lim)
+    (c : Ctx) (hact : c.vertexAt? g.fromVid = some c.active) (computed : List Ctx)
+    (hclear : g.minEligible = true → ∀ e ∈ computed, e.foldedValues = [])
+    (hsmall : computed.length < 2 ^ 64) (r : Option Ctx)
+    (h0 : foldFinish env.noLimits parent g (none, none) c computed = .ok r) :
+    ∃ r', foldFinish env parent g lim c computed = .ok r' ∧
+      r.map (Ctx.norm (truncEids parent) false) = r'.map (Ctx.norm (truncEids parent) false) :=
+  foldFinish_sim hu (compGuard_facts hguard) hg hlim rfl hact [] rfl hclear hsmall h0
+
+/-! ### the global theorem -/
+
+/-- The guard: for every component of the query (at every fold-nesting depth) `compGuard` holds —
+no vertex filter, no post-filter of a fold and no import of a fold of the component refers to the
+count of a fold of that component that is eligible for the min shortcut (post-filters non-empty and
+all `>=`/`>` against variables, no outputs in its own component, no count output); such a fold has
+no outputs nested inside it; the folds of the component have distinct Eids.  Decidable. -/
+def CountUnobserved (ir : IRQuery) : Prop := countUnobservedC ir.rootComponent = true
+
+instance (ir : IRQuery) : Decidable (CountUnobserved ir) := by unfold CountUnobserved; infer_instance
+
+/-- Side conditions on every fold of the query (with its parent component): the limit computations
+do not panic (`FoldOK.limits`, implied by typed arguments: `limits_of_typed_args`) and the fold
+never has 2^64 or more elements (`FoldOK.small`). -/
+def FoldsOK (env : Env) (ir : IRQuery) : Prop := AllFoldsC (FoldOK env) ir.rootComponent
+
+/-- Typed count-filter arguments (`Int` variables hold `Int64`/`Uint64` values, `[Int]` variables
+lists of them — what argument validation enforces) make `get_max_fold_count_limit` and
+`get_min_fold_count_limit` total. -/
+theorem limits_of_typed_args (env : Env) (parent : Component) (g : Fold)
+    (h : ∀ f ∈ g.post, countArgTyped env f) : ∃ lim, foldLimits env parent g = .ok lim :=
+  foldLimits_total env parent g h
+
+/-- **`limits_invisible`, guarded.**  If no count of a min-eligible fold is observed
+(`CountUnobserved`), the limits are computable and the folds small (`FoldsOK`), then every
+successful run of the reference semantics — all folds fully materialised before filtering — is
+reproduced by the engine with its early termination: the same rows in the same order. -/
+theorem limits_invisible_partial (env : Env) (ir : IRQuery) (hguard : CountUnobserved ir)
+    (hfolds : FoldsOK env ir) (rows : List Row)
+    (href : interpret { env with useLimits := false } ir = .ok rows) :
+    interpret env ir = .ok rows :=
+  interpret_sim env ir hguard hfolds href
+
+/-- … in the form of the full statement. -/
+theorem limits_invisible_partial_eq (env : Env) (ir : IRQuery) (hguard : CountUnobserved ir)
+    (hfolds : FoldsOK env ir)
+    (href : ∃ rows, interpret { env with useLimits := false } ir = .ok rows) :
+    interpret { env with useLimits := false } ir = interpret env ir := by
+  obtain ⟨rows, h⟩ := href
+  rw [h, limits_invisible_partial env ir hguard hfolds rows h]
+
+/-! ### the full statement is false: F-23 and F-29 on the model -/
+
+/-- **F-23.**  `{ Four { value @output divisor @fold @transform(op:"count") @filter(op:">=",
+value:["$one"]) @tag(name:"c") multiple @fold @transform(op:"count") @output(name:"m")
+@filter(op:"=", value:["%c"]) } }` with `one = 1` on a vertex with 2 divisors and 2 multiples:
+the reference semantics yields the row `{m: 2, value: 4}`, the engine — which truncates the first
+fold to 1 element because `has_tag_on_fold_count` does not look at the sibling fold's post-filter —
+yields no row. -/
+theorem limits_visible_witness :
+    interpret { wEnv true with useLimits := false } wIR = .ok [[("m", .uint64 2), ("value", .int64 4)]] ∧
+      interpret (wEnv true) wIR = .ok [] :=
+  ⟨wRun_nolim, wRun_lim⟩
+
+/-- **F-29.**  `{ Four { value @output divisor @fold @transform(op:"count") @filter(op:">=",
+value:["$one"]) { multiple @fold { value @output(name:"inner") } } } }`: the outer fold has no
+outputs of its own and is truncated to 1 element, so the nested output `inner` — one list per
+element of the outer fold — is `[[]]` instead of `[[], [4, 6]]`. -/
+theorem limits_visible_witness_nested :
+    interpret { wEnv true with useLimits := false } nIR =
+        .ok [[("inner", .list [.list [], .list [.int64 4, .int64 6]]), ("value", .int64 4)]] ∧
+      interpret (wEnv true) nIR = .ok [[("inner", .list [.list []]), ("value", .int64 4)]] :=
+  ⟨nRun false, nRun true⟩
+
+/-- The unguarded statement does not hold. -/
+theorem limits_invisible_false :
+    ¬ ∀ (env : Env) (ir : IRQuery), interpret { env with useLimits := false } ir = interpret env ir := by
+  intro h
+  have := h (wEnv true) wIR
+  rw [limits_visible_witness.1, limits_visible_witness.2] at this
+  simp at this
+
+/-! ### non-vacuity -/
+
+/-- the guard rejects exactly the two witnesses … -/
+example : ¬ CountUnobserved wIR := by decide
+example : ¬ CountUnobserved nIR := by decide
+
+/-- … and admits a query in which both shortcuts are active (`divisor` truncated by the min limit 1,
+`multiple` dropped early by the max limit 1), for which all hypotheses of `limits_invisible_partial`
+hold. -/
+example : CountUnobserved gIR ∧ FoldsOK (wEnv true) gIR ∧
+    foldLimits (wEnv true) gRoot gF1 = .ok (none, some 1) ∧
+    foldLimits (wEnv true) gRoot gF2 = .ok (some 1, none) :=
+  ⟨gGuard, gFoldsOK, gTruncated.1, gTruncated.2⟩
+
+/-- (a) on boundary arguments: `count = -3` imposes the limit 0 and is false for every count;
+`count < 0` likewise; `one_of [2^63 as Uint64, -1]` imposes 2^63. -/
+example : maxFoldLimit { wEnv true with args := [("x", .int64 (-3))] }
+    [⟨.bin .equals, .count, some (.var "x" wInt)⟩] none = .ok (some 0) := by rfl
+example : Filter.equals (.uint64 0) (.int64 (-3)) = false := by decide
+example : maxFoldLimit { wEnv true with args := [("x", .int64 0)] }
+    [⟨.bin .lessThan, .count, some (.var "x" wInt)⟩] none = .ok (some 0) := by rfl
+example : maxFoldLimit { wEnv true with args := [("x", .list [.uint64 9223372036854775808, .int64 (-1)])] }
+    [⟨.bin .oneOf, .count, some (.var "x" wInt)⟩] none = .ok (some 9223372036854775808) := by rfl
+/-- (b): `count > -1` contributes the min limit 1 although it holds for every count. -/
+example : minFoldLimit { wEnv true with args := [("x", .int64 (-1))] }
+    [⟨.bin .greaterThan, .count, some (.var "x" wInt)⟩] none = .ok (some 1) := by rfl
+example : Filter.greaterThan (.uint64 0) (.int64 (-1)) = .ok true := by decide
+
 end TF.C22
 
 #print axioms TF.C22.max_limit_sound
 #print axioms TF.C22.min_limit_sound
 #print axioms TF.C22.min_limit_sound_all
+#print axioms TF.C22.foldFinish_limits_equiv
+#print axioms TF.C22.limits_of_typed_args
+#print axioms TF.C22.limits_invisible_partial
+#print axioms TF.C22.limits_invisible_partial_eq
+#print axioms TF.C22.limits_visible_witness
+#print axioms TF.C22.limits_visible_witness_nested
+#print axioms TF.C22.limits_invisible_false
